@@ -153,6 +153,8 @@ pub struct Obs {
     pub iter: Vec<Result<MRead, String>>,
     pub ended: bool,
     pub nth: Vec<Option<Result<MRead, String>>>,
+    /// a typed iteration as another type, going on after every mismatch: the error of each item
+    pub as_other: Vec<Result<(), String>>,
     /// (state the reader was brought into: 0 fresh, 1 after one next(), 2 after seek(1); program; what its calls returned)
     pub progs: Vec<(u8, Prog, crate::iterprog::Out<Result<MRead, String>>)>,
 }
@@ -208,7 +210,14 @@ pub fn observe_chunked(case: &Case, shp: &[u8], shx: &[u8], chunk: usize) -> Res
             progs.push((pre, p, iterprog::Out { answers: o.answers.into_iter().map(|a| a.map(|x| x.map(|s| from_lib(&s)).map_err(|e| err_kind(&e)))).collect(), count: o.count }));
         }
     }
-    Ok(Obs { count, iter, ended, nth, progs })
+    // the file read as another type: every entry is a mismatch, and the iteration goes from entry to entry
+    let other = if case.ty == Ty::Point { Ty::PolygonZ } else { Ty::Point };
+    let as_other: Vec<Result<(), String>> = crate::with_ty!(other, S => {
+        let mut r4 = ShapeReader::with_shx(dev(shp), dev(shx)).map_err(|e| err_kind(&e))?;
+        let v: Vec<Result<(), String>> = r4.iter_shapes_as::<S>().take(case.n + 3).map(|x| x.map(|_| ()).map_err(|e| err_kind(&e))).collect();
+        v
+    }, unreachable!());
+    Ok(Obs { count, iter, ended, nth, progs, as_other })
 }
 
 /// The by-path routes (`read_shapes`, `read_shapes_as`, `ShapeReader::from_path`): the .shx next to the
@@ -324,6 +333,13 @@ pub fn judge(case: &Case, recs: &[MRecord], o: &Result<Obs, String>) -> Vec<(Str
             }
         } else if x.is_some() {
             out.push((format!("random-access-beyond-end[{}]", tag), format!("read_nth_shape({}) is Some", i)));
+        }
+    }
+    {
+        let other = if case.ty == Ty::Point { Ty::PolygonZ } else { Ty::Point };
+        let want = Err(format!("MismatchShapeType(requested={},actual={})", other.code(), case.ty.code()));
+        if o.as_other.len() != case.n || o.as_other.iter().any(|x| *x != want) {
+            out.push((format!("typed-iteration-as-another-type[{}]", tag), format!("iter_shapes_as::<{}>() over {} index entries of type {} yielded {:?}; every entry is a type mismatch and nothing else", other.name(), case.n, case.ty.name(), o.as_other)));
         }
     }
     for (pre, p, o) in &o.progs {
@@ -585,7 +601,7 @@ pub fn check(tier: Tier) -> i32 {
             tier,
             level: "model_checking",
             engine: "E2 enumerator over RefCodec-built .shp/.shx pairs (all permutations x all filler combinations), read by the real ShapeReader::with_shx",
-            rule: "types x n records of pairwise different size x every permutation of physical order against index order x every combination of fillers {none, 2, 8, 14 bytes, a complete valid decoy record} before / between / after x filler byte {0x00, 0xff}; header length covers the whole file; every non-trivial case again through sources that return at most 1 resp. 7 bytes per read; the iterator also driven through 14 programs of std adaptors (nth, skip, step_by, last, count) from 3 reader states; cases with fillers in {none, 8 bytes, decoy} also as files on disk through read_shapes, read_shapes_as, ShapeReader::from_path; plus records at byte offsets beyond 2^31 and 3*2^30 on a sparse source (physical and permuted index order); non-trivial = some filler or physical order != index order",
+            rule: "types x n records of pairwise different size x every permutation of physical order against index order x every combination of fillers {none, 2, 8, 14 bytes, a complete valid decoy record} before / between / after x filler byte {0x00, 0xff}; header length covers the whole file; every non-trivial case again through sources that return at most 1 resp. 7 bytes per read; a typed iteration as another type going from mismatch to mismatch (one per entry); the iterator also driven through 14 programs of std adaptors (nth, skip, step_by, last, count) from 3 reader states; cases with fillers in {none, 8 bytes, decoy} also as files on disk through read_shapes, read_shapes_as, ShapeReader::from_path; plus records at byte offsets beyond 2^31 and 3*2^30 on a sparse source (physical and permuted index order); non-trivial = some filler or physical order != index order",
             bounds: json!({"types": types.iter().map(|t| t.name()).collect::<Vec<_>>(), "n": ns, "gap_kinds": 5, "cases": cases.len()}),
             exhaustive: true,
             assumptions: vec!["fillers of odd length are impossible (offsets are in 16-bit words)".into()],
